@@ -434,9 +434,29 @@ def check_C09(tier, seed):
     return res.finish()
 
 
+def dom_sim_behaviours(seed):
+    """thorough tier: the exhaustive space of length-4 histories no longer finishes (3.6 million states with two slots already), so the
+    faithful model is run in TLC's simulation mode: random histories of length 7 on three slots, every invariant evaluated on every state"""
+    d = wdir("beh")
+    path = os.path.join(d, "dom_sim_%d.ndjson" % seed)
+    stats_p = path + ".stats"
+    src = [os.path.join(vlib.TLA, f) for f in ("Dom.tla", "MC_Dom.tla", "MC_Dom.cfg")]
+    stamp = "".join(str(os.path.getmtime(f)) for f in src)
+    if os.path.exists(path) and os.path.exists(stats_p):
+        st = json.load(open(stats_p))
+        if st.get("stamp") == stamp:
+            st["reused_from_cache"] = True
+            return path, st
+    st = tlc_mc("MC_Dom", {"MaxOps": 7, "MaxId": 14, "EmitOn": "TRUE"}, emit_path=path, tag="MC_Dom_sim", simulate=(150000, 8, 1000 + seed), timeout=3000, workers=8)
+    st["stamp"] = stamp
+    st.pop("log_tail", None)
+    json.dump(st, open(stats_p, "w"))
+    return path, st
+
+
 def dom_behaviours(tier):
     d = wdir("beh")
-    k = 3 if tier == QUICK else 4
+    k = 3
     path = os.path.join(d, "dom_%d.ndjson" % k)
     stats_p = path + ".stats"
     src = [os.path.join(vlib.TLA, f) for f in ("Dom.tla", "MC_Dom.tla", "MC_Dom.cfg")]
@@ -454,8 +474,8 @@ def dom_behaviours(tier):
     return path, st
 
 
-def dom_replay(prop, tier, seed, res, classes, extra=(), label="dom"):
-    beh, st = dom_behaviours(tier)
+def dom_replay(prop, tier, seed, res, classes, extra=(), label="dom", sim=False):
+    beh, st = dom_sim_behaviours(seed) if sim else dom_behaviours(tier)
     exe = build_harness()
     out = fresh(prop, label)
     summ = run_replay_with_crash_isolation(exe, ["dom-replay", "--beh", beh, "--seed", seed, "--out", out] + list(extra), out, res, "dom-replay")
@@ -470,7 +490,7 @@ def dom_replay(prop, tier, seed, res, classes, extra=(), label="dom"):
     c["traces_validated_against_impl"] += summ["histories"]
     c["samples"] += summ["samples"][:2]
     c.setdefault("replay", {})[label] = {k: summ[k] for k in ("histories", "steps", "per_op")}
-    c.setdefault("tlc", {})["MC_Dom"] = st
+    c.setdefault("tlc", {})["MC_Dom_sim" if sim else "MC_Dom"] = st
     return summ
 
 
@@ -496,6 +516,8 @@ def check_C15(tier, seed):
                             "replayed on real Values (three ways of reaching &mut), comparing results, rejected calls and the full contents of every slot after every step. "
                             "non-trivial = histories containing at least one mutation")
     dom_replay("C15", tier, seed, res, ("dom", "crash", "panic"))
+    if tier != QUICK:
+        dom_replay("C15", tier, seed, res, ("dom", "crash", "panic"), label="dom_sim", sim=True)
     res.coverage["exhaustive"] = True
     return res.finish()
 
@@ -510,6 +532,9 @@ def check_C16(tier, seed):
     # "from any thread": the same histories with every step on a fresh OS thread (values created, mutated and dropped on different threads),
     # then every remaining value and a clone of it read in full and dropped by concurrent threads released by a barrier
     dom_replay("C16", tier, seed, res, ("arena", "leak", "crash", "dom", "panic"), extra=["--threads", 1], label="dom_threads")
+    if tier != QUICK:
+        dom_replay("C16", tier, seed, res, ("arena", "leak", "crash"), label="dom_sim", sim=True)
+        dom_replay("C16", tier, seed, res, ("arena", "leak", "crash", "dom", "panic"), extra=["--threads", 1], label="dom_sim_threads", sim=True)
     # every node finds its arena through index / length fields of fixed width: containers and strings past 2^16 and 2^24
     big_replay("C16", tier, res)
     # values own their data: entry points that overwrite the input buffer before reading the value (incl. the
